@@ -164,6 +164,12 @@ def call_spec(name, w, op):
         return compute_features_2d, [('sigs', w.sigs2d), ('fs', fs), ('f_range', fr)], dict(compute_features_kwargs=w.group_kw_amp if op % 2 else w.group_kw_cyc, axis=0, n_jobs=1 + op % 2), None
     if name == 'compute_features_2d[0,list]':
         return compute_features_2d, [('sigs', w.sigs2d), ('fs', fs), ('f_range', fr)], dict(compute_features_kwargs=w.group_list, axis=0, n_jobs=2), None
+    if name == 'compute_features_2d[None,list]':
+        if not hasattr(w, 'epoch_list'):
+            w.epoch_list = [copy.deepcopy(w.group_kw_cyc) for _ in range(len(w.sigs2d))]
+            for i, d in enumerate(w.epoch_list):
+                d['threshold_kwargs'] = dict(d['threshold_kwargs'], min_n_cycles=1 + i % 3)
+        return compute_features_2d, [('sigs', w.sigs2d), ('fs', fs), ('f_range', fr)], dict(compute_features_kwargs=w.epoch_list, axis=None), None
     if name == 'compute_features_2d[None]':
         return compute_features_2d, [('sigs', w.sigs2d), ('fs', fs), ('f_range', fr)], dict(compute_features_kwargs=w.group_kw_cyc, axis=None), None
     if name == 'compute_features_3d':
@@ -227,7 +233,7 @@ def call_spec(name, w, op):
 
 
 PRODUCERS = ['compute_features[cycles]', 'compute_features[amp]', 'compute_shape_features', 'compute_cyclepoints', 'find_extrema']
-CALLS = PRODUCERS + ['compute_features[amp,nosamples]', 'compute_features_2d[0,dict]', 'compute_features_2d[0,list]', 'compute_features_2d[None]',
+CALLS = PRODUCERS + ['compute_features[amp,nosamples]', 'compute_features_2d[0,dict]', 'compute_features_2d[0,list]', 'compute_features_2d[None]', 'compute_features_2d[None,list]',
                      'compute_features_3d', 'compute_burst_features[cycles]', 'compute_burst_features[amp]', 'compute_amp_fraction',
                      'compute_amp_consistency', 'compute_period_consistency', 'compute_monotonicity', 'compute_burst_fraction', 'find_zerox',
                      'extrema_interpolated_phase', 'recompute_edges', 'limit_df', 'epoch_df', 'drop_samples_df', 'plot_burst_detect_summary',
